@@ -228,7 +228,7 @@ func genOne(r *hx.Rng, tier string) string {
 	sort.Ints(corrupt)
 	dirs := map[[2]int]string{}
 	// recipe families
-	switch r.Intn(16) {
+	switch r.Intn(18) {
 	case 0: // crash from some phase on
 		for _, c := range corrupt {
 			p0 := hx.Pick(r, sendPhases)
@@ -300,6 +300,27 @@ func genOne(r *hx.Rng, tier string) string {
 			dirs[[2]int{a, 7}] = "pt" + dots(subset(r, n-1, t))
 		default:
 			dirs[[2]int{a, 8}] = fmt.Sprintf("acc%d", r.Range(1, n-1))
+		}
+	case 11, 12: // colluding pair: dealer m gives colluder k a bad share, k does not complain, m drops out later, k reveals / accuses late
+		if len(corrupt) > 1 {
+			m, k := corrupt[0], corrupt[1]
+			if r.Bool() {
+				m, k = k, m
+			}
+			dirs[[2]int{m, 3}] = hx.Pick(r, []string{fmt.Sprintf("bad%d", k), fmt.Sprintf("bad%d", k), fmt.Sprintf("garb%d", k)})
+			dirs[[2]int{k, 4}] = fmt.Sprintf("drop%d", m)
+			switch r.Intn(4) {
+			case 0, 1:
+				dirs[[2]int{m, 7}] = "s"
+				dirs[[2]int{k, 10}] = fmt.Sprintf("rev%d", m)
+			case 2:
+				dirs[[2]int{m, 7}] = "pt" + dots(subset(r, n, t))
+				dirs[[2]int{k, 10}] = fmt.Sprintf("rev%d", m)
+			default:
+				dirs[[2]int{k, 8}] = fmt.Sprintf("acc%d", m)
+			}
+		} else {
+			dirs[[2]int{corrupt[0], 7}] = "s"
 		}
 	case 7: // corrupt-to-corrupt misbehaviour: only a corrupt member can (truthfully or not) accuse
 		if len(corrupt) > 1 {
